@@ -79,7 +79,49 @@ def pairing_table(ctx, rule, mod, fn, stores, axes_info, label):
     return combos
 
 
-def rule_PV(ctx, fm):
+def index_lower_bound(e):
+    """Greatest statically known lower bound of an integer index expression
+    (None: unknown form)."""
+    if isinstance(e, ast.Constant) and isinstance(e.value, (int, float)):
+        return e.value
+    if isinstance(e, ast.BinOp) and isinstance(e.op, (ast.Sub, ast.Add)):
+        l, r = index_lower_bound(e.left), None
+        if isinstance(e.right, ast.Constant):
+            r = e.right.value
+        if l is None or r is None:
+            return None
+        return l - r if isinstance(e.op, ast.Sub) else l + r
+    if isinstance(e, ast.Call):
+        f = ast.unparse(e.func)
+        if f in ('max', 'np.maximum'):
+            bs = [index_lower_bound(a) for a in e.args]
+            known = [b for b in bs if b is not None]
+            return max(known) if known else None
+        if f in ('min', 'np.minimum'):
+            bs = [index_lower_bound(a) for a in e.args]
+            return None if any(b is None for b in bs) else min(bs)
+        if f == 'np.clip' and len(e.args) >= 2 and isinstance(
+                e.args[1], ast.Constant):
+            return e.args[1].value
+        if f == 'int' and e.args:
+            return index_lower_bound(e.args[0])
+        if f in ('np.searchsorted', 'np.argmax', 'np.argmin', 'np.digitize',
+                 'np.count_nonzero', 'len') or f.endswith('.searchsorted'):
+            return 0
+    if isinstance(e, ast.Subscript):
+        # np.where(...)[0][0] / x.nonzero()[0][0]: an element of an index set
+        base = e
+        while isinstance(base, ast.Subscript):
+            base = base.value
+        if isinstance(base, ast.Call) and (
+                ast.unparse(base.func) in ('np.where', 'np.nonzero',
+                                           'np.flatnonzero', 'np.argwhere')
+                or ast.unparse(base.func).endswith('.nonzero')):
+            return 0
+    return None
+
+
+def rule_PV(ctx, fm, P='C09.PV'):
     pv = fm.func('_point_vector')
     ps_fn = [n for n in pv.body if isinstance(n, ast.FunctionDef)]
     ctx.anchor(len(ps_fn) == 1, 'point_source helper in _point_vector')
@@ -101,7 +143,7 @@ def rule_PV(ctx, fm):
         ok = ast.unparse(u.value.args[2]).replace(' ', '') == \
             f'{pps[3]}[{a}]' and ast.unparse(u.value.args[3]) == pps[a] and \
             ast.unparse(u.value.args[1]) == nname
-        ctx.check('C09.PV.axes', f'point_source axis {"xyz"[a]} inputs', ok,
+        ctx.check(f'{P}.axes', f'point_source axis {"xyz"[a]} inputs', ok,
                   'coordinate / grid vector / array size of this axis are not '
                   'paired (the last-index special case would fire in the wrong '
                   'layer)',
@@ -109,10 +151,10 @@ def rule_PV(ctx, fm):
     stores = [n for n in psf.body if isinstance(n, ast.Assign) and isinstance(
         n.targets[0], ast.Subscript) and ast.unparse(n.targets[0].value) ==
         arr]
-    combos = pairing_table(ctx, 'C09.PV.pairing', fm, psf, stores, axes,
+    combos = pairing_table(ctx, f'{P}.pairing', fm, psf, stores, axes,
                            '_point_vector')
-    ctx.floor('C09.PV.pairing', 8)
-    ctx.check('C09.PV.unity', '_point_vector covers the 8 corners once',
+    ctx.floor(f'{P}.pairing', 8)
+    ctx.check(f'{P}.unity', '_point_vector covers the 8 corners once',
               len({c for c, _ in combos}) == 8 and len(combos) == 8,
               'the 8 stores do not address the 8 corners of the cell once '
               'each', ctx.where(fm, psf))
@@ -124,7 +166,7 @@ def rule_PV(ctx, fm):
             env[axes[a]['r']] = rs[a]
             env[axes[a]['e']] = 1 - rs[a]
         total = total + Lifter(env, {}, fm.rel, strict=True).lift(st.value)
-    ctx.check('C09.PV.unity', '_point_vector weights sum to one',
+    ctx.check(f'{P}.unity', '_point_vector weights sum to one',
               equal(total, 1), f'sum of the 8 weights is {sp.expand(total)}',
               ctx.where(fm, psf), sample={'sum': str(sp.simplify(total))})
     # linear weights
@@ -155,7 +197,7 @@ def rule_PV(ctx, fm):
     ok = vals.get(un) in (f'{gp[0]}+1', f'1+{gp[0]}') and \
         equal(env.get(rn, 0), (x - c0) / (c1 - c0)) and \
         equal(env.get(en, 0), 1 - (x - c0) / (c1 - c0))
-    ctx.check('C09.PV.linear', 'get_index_and_strength: linear weights', ok,
+    ctx.check(f'{P}.linear', 'get_index_and_strength: linear weights', ok,
               f'weights are r={env.get(rn)}, e={env.get(en)}, upper '
               f'index {vals.get(un)}; trilinear interpolation needs '
               'r=(x-c[i])/(c[i+1]-c[i]), e=1-r, i+1', ctx.where(fm, g),
@@ -175,21 +217,38 @@ def rule_PV(ctx, fm):
             vec = c[0][1]['_vec_']
             k = kinds[a]
             ok = has(f'{vec} = ({gn}.{k[0]}, {gn}.{k[1]}, {gn}.{k[2]})', pv)
-        ctx.check('C09.PV.components', f'_point_vector component {comp}: '
+        ctx.check(f'{P}.components', f'_point_vector component {comp}: '
                   'centres along, nodes across', ok, 'component grid vectors '
                   f'of {comp} are not (centres along its own axis, nodes '
                   'across)', ctx.where(fm, pv))
     sd = find(f'_s_ = electrodes.rotation(*{cp}[3:])', pv)
-    ctx.check('C09.PV.components', '_point_vector direction cosines',
+    ctx.check(f'{P}.components', '_point_vector direction cosines',
               len(sd) == 1, 'direction is not rotation(azimuth, elevation) '
               'of the coordinates', ctx.where(fm, pv))
     sdn = sd[0][1]['_s_'] if sd else 'srcdir'
     for a, comp in enumerate(('fx', 'fy', 'fz')):
-        ctx.check('C09.PV.components', f'_point_vector scales {comp} by '
+        ctx.check(f'{P}.components', f'_point_vector scales {comp} by '
                   f'rotation[{a}]', has(f'{vn}.{comp} *= {sdn}[{a}]', pv),
                   'component is not scaled by its direction cosine',
                   ctx.where(fm, pv))
-    ctx.floor('C09.PV.components', 7)
+    ctx.floor(f'{P}.components', 7)
+    # lower indices are clamped to the first cell: a point between the first
+    # node and the first cell centre would otherwise get index -1, which
+    # wraps around to the last edge of the grid
+    for a in range(3):
+        lo = axes[a]['lower']
+        defs = [n for n in psf.body if isinstance(n, ast.Assign) and
+                ast.unparse(n.targets[0]) == lo]
+        ctx.anchor(len(defs) == 1, f'definition of lower index {lo}')
+        lb = index_lower_bound(defs[0].value)
+        if lb is None:
+            raise AnalysisError(f'cannot bound the index expression '
+                                f'`{ast.unparse(defs[0].value)}` from below')
+        ctx.check(f'{P}.bounds', f'point_source lower index {lo} >= 0',
+                  lb >= 0, f'`{au.stext(defs[0])}` can be {lb}: a negative '
+                  'index wraps to the far side of the grid (weight on edges '
+                  'of cells the source does not touch)',
+                  ctx.where(fm, defs[0]), sample={'lower_bound': lb})
 
 
 def rule_RC(ctx, fm):
